@@ -114,4 +114,12 @@ def main():
     return propcheck.main(a)
 
 if __name__ == '__main__':
-    sys.exit(main())
+    try:
+        rc = main()
+    except SystemExit:
+        raise
+    except BaseException as e:   # an internal error of the machinery is never a verdict about draco: exit 2, never 1
+        import traceback; traceback.print_exc()
+        print('INCONCLUSIVE: internal error of the checking machinery: %s: %s' % (type(e).__name__, str(e)[:300]))
+        rc = 2
+    sys.exit(rc)
